@@ -14,7 +14,8 @@
  *   stdfd <1|2> <pipe-noreader|pipe-full|null|file:<path>>      what the CALLER's descriptor is
  *   stdin <null|closed|pty>
  *   uid <n>                          drop to uid/gid n (mode-000 sinks are only effective for non-root)
- *   call <api> <path> <argv> <envp> <ret> <errno> <plan>        one wrapped call under fault plan <plan> ("-" none)
+ *   call <api> <path> <argv> <envp> <ret> <errno> <plan> [thread|errno=N]   one wrapped call under fault plan <plan> ("-" none); optionally made by a
+ *                                    fresh thread, or with the caller's errno preset to N
  * Record lines (besides those of libfault "io/mark" and librecorder "real"):
  *   ret <idx> <ret> <errno> <real_calls> <elapsed_ms> <signals: comma list of numbers or ->
  *   fatal <idx> timeout|signal:<n>
@@ -23,6 +24,7 @@
 #include <dlfcn.h>
 #include <errno.h>
 #include <fcntl.h>
+#include <pthread.h>
 #include <grp.h>
 #include <pty.h>
 #include <signal.h>
@@ -136,6 +138,15 @@ static void set_stdfd(int tfd, const char *what) {
     } else if (!strncmp(what, "file:", 5)) { char *p = subst(what + 5, strlen(what + 5), NULL); int fd = open(p, O_WRONLY | O_CREAT | O_APPEND, 0644); dup2(fd, tfd); close(fd); }
 }
 
+struct tcall { int is_execv; int r; int e; };
+static void *thread_call(void *a) {
+    struct tcall *tc = a;
+    errno = 0;
+    tc->r = tc->is_execv ? execv(verif_expect.path, verif_expect.argv) : execve(verif_expect.path, verif_expect.argv, verif_expect.envp);
+    tc->e = errno;
+    return NULL;
+}
+
 static int do_call(int nf, char **f) {
     if (nf < 8) return -1;
     int is_execv = !strcmp(f[1], "execv");
@@ -151,9 +162,17 @@ static int do_call(int nf, char **f) {
     alarm((unsigned) CALL_TIMEOUT);
     clock_gettime(CLOCK_MONOTONIC, &t0);
     if (verif_fault_begin) verif_fault_begin(plan, REC);
-    errno = 0;
-    int r = is_execv ? execv(verif_expect.path, verif_expect.argv) : execve(verif_expect.path, verif_expect.argv, verif_expect.envp);
-    int e = errno;
+    int r, e;
+    if (nf >= 9 && !strcmp(f[8], "thread")) {       /* the wrapped call is made by a FRESH thread (the main thread waits): locks a previous call left behind show up */
+        struct tcall tc = { is_execv, 0, 0 }; pthread_t th;
+        if (pthread_create(&th, NULL, thread_call, &tc)) { recf("note\tno-thread\n"); return -1; }
+        pthread_join(th, NULL);
+        r = tc.r; e = tc.e;
+    } else {
+        errno = (nf >= 9 && !strncmp(f[8], "errno=", 6)) ? atoi(f[8] + 6) : 0;     /* "errno=N": the caller arrives with a stale errno */
+        r = is_execv ? execv(verif_expect.path, verif_expect.argv) : execve(verif_expect.path, verif_expect.argv, verif_expect.envp);
+        e = errno;
+    }
     if (verif_fault_end) verif_fault_end();
     clock_gettime(CLOCK_MONOTONIC, &t1);
     alarm(0);
